@@ -10,7 +10,7 @@ EXPLANATION = (
     "(AsciiInteger/AsciiFloat/PaddedString, Factor value, units, enum tables) are the pinned ones; 16 CEOS byte positions known "
     "independently of the repository anchor the table. Decoding: for every ASCII string up to the bound, AsciiInteger / AsciiFloat / "
     "PaddedString hand exactly the text without its padding to the number parser (uninterpreted INT/FLOAT) or return -1 / NaN / '' "
-    "when the field is blank; complex = first + 1j*second. Plumbing: the real sar_leader.metadata.transform_metadata with all seven "
+    "when the field is blank; a complex field keeps each half as it is (enumerated through the real parser). Plumbing: the real sar_leader.metadata.transform_metadata with all seven "
     "record transformers runs on the exact parsed document of seven structure variants (UTM / UPS / LCC / MER / no map projection, "
     "1-3 attitude points and channels) with the ~480 numeric fields that reach /metadata as symbolic integers: every variable, "
     "attribute, dimension, unit and group path carries its pinned source for all values. End to end: a leader written from the pinned "
